@@ -29,7 +29,7 @@ RECURSIVE OutNos(_, _, _)
 OutNos(out, i, second) == IF i > Len(out) THEN <<>>
                           ELSE (IF (out[i][1] = "A2") = second THEN <<StNo(out[i][2])>> ELSE <<>>) \o OutNos(out, i + 1, second)
 
-EmptyWorld == World0([TL |-> <<>>, KeyTl |-> <<>>, ChainNext |-> <<>>, HasSel |-> FALSE, HasB |-> FALSE, HasE2 |-> FALSE], 0, 0, 0, 0, TRUE)
+EmptyWorld == World0([TL |-> <<>>, KeyTl |-> <<>>, ChainNext |-> <<>>, HasSel |-> FALSE, HasB |-> FALSE, HasE2 |-> FALSE, C2Late |-> FALSE], 0, 0, 0, 0, TRUE)
 Init == l = 1 /\ w = EmptyWorld /\ ord = <<>> /\ pred = <<>> /\ wi = 0
 
 Flush == IF wi > 0 THEN PrintT(<<"PRED", ToJson([world |-> wi, ord |-> ord, pred |-> pred])>>) ELSE TRUE
@@ -39,7 +39,7 @@ TWorld ==
   /\ Flush
   /\ LET r == Rec[l]
          c == [TL |-> [i \in 1..Len(r.tl) |-> [del |-> r.tl[i][1], tot |-> r.tl[i][2]]],
-               KeyTl |-> r.keytl, ChainNext |-> r.chain, HasSel |-> r.hassel, HasB |-> r.hasb, HasE2 |-> r.hase2]
+               KeyTl |-> r.keytl, ChainNext |-> r.chain, HasSel |-> r.hassel, HasB |-> r.hasb, HasE2 |-> r.hase2, C2Late |-> r.c2late]
      IN w' = World0(c, r.tlA, r.tlB, r.tlE2, r.key0, r.enA)
   /\ ord' \in Orders
   /\ pred' = <<>> /\ wi' = wi + 1 /\ l' = l + 1
@@ -52,6 +52,10 @@ TOp ==
             [] r.op = "reset" -> Reset(w, r.T)
             [] r.op = "settl" -> SetTimeline(w, r.T, r.id)
             [] r.op = "setpos" -> SetPos(w, r.T, r.p)
+            [] r.op = "rmcomp" -> RmComp(w)
+            [] r.op = "addcomp" -> AddComp(w)
+            [] r.op = "pause" -> w          \* pausing / re-timing the clock changes nothing but the deltas of
+            [] r.op = "speed" -> w          \* later frames (the logged dt IS Time::delta())
   /\ l' = l + 1 /\ UNCHANGED <<ord, pred, wi>>
 
 TFrame ==
